@@ -262,6 +262,8 @@ def check_dst(ctx, F, crate, kind, a, row, inst, v, lab):
                 if r == nul_ or (r[0] == "unsize" and r[3] == "&[u8; 0]"):
                     return True
                 return r[0] == "ite" and term_piece(r[2]) and term_piece(r[3])
+            from .. import select as SEL_
+            rest = [SEL_.canon_place(r) for r in rest]
             if rest and not all(term_piece(r) for r in rest):
                 bad.append("pieces after the dynamic one: %s" % [G.show(r)[:40] for r in rest])
             off = None
